@@ -68,10 +68,10 @@ def jobs(tier, seed):
     out = []
     quick = tier == "quick"
     L = 3 if quick else 4
-    shapes = ["G-NU", "G-PAL", "G-UC", "G-DUP", "G-LR"] if quick else ["G-NU", "G-PAL", "G-UC", "G-DUP", "G-LR", "G-DEAD", "G-NULL3", "G-CAT", "G-FIN", "G-TRI", "G-MUT"]
+    shapes = ["G-NU", "G-PAL", "G-UC", "G-DUP", "G-LR", "G-NULL3", "G-NB"] if quick else ["G-NU", "G-PAL", "G-UC", "G-DUP", "G-LR", "G-NULL3", "G-NB", "G-DEAD", "G-CAT", "G-FIN", "G-TRI", "G-MUT", "G-NUC", "G-HEADLESS"]
     for sh in shapes:
         sk = grammar(sh)
-        contexts = [list(x) for x in all_strings(sk.V, L)]
+        contexts = [list(x) for x in all_strings(sk.V, L if len(sk.V) <= 2 else L - 1)]
         contexts += [[EOS], ["a", EOS], [EOS, "a"]]
         bits = [0, 1, 2] if sk.K >= 7 else [0, 1]
         for alg in ["earley", "cky"]:
@@ -103,7 +103,7 @@ INFO = dict(
     design_ref="DESIGN.md section 3 C01",
     explanation="Mask of the Boolean grammar LM vs an independent viable-prefix decision on every sub-grammar and context within the bounds.",
     rule="one evaluation per (sub-grammar path, back-end, context); non-trivial = the check ran (both empty and non-empty masks count); distinct by construction",
-    bounds=dict(quick=dict(contexts="<= 3 over V plus three EOS-containing", skeletons=["G-NU", "G-PAL", "G-UC", "G-DUP", "G-LR"], hash_seeds=2),
+    bounds=dict(quick=dict(contexts="<= 3 over V plus three EOS-containing", skeletons=["G-NU", "G-PAL", "G-UC", "G-DUP", "G-LR", "G-NULL3"], hash_seeds=2),
                 thorough=dict(contexts="<= 4", skeletons=11, hash_seeds=4)),
     outside=["contexts beyond the bound", "grammars outside the catalogue's sub-shape lattices", "hash seeds beyond the sampled ones"],
     assumptions=["weights are reals; present iff > 0"],
